@@ -160,6 +160,7 @@ def b64decode(y, *a, **k):
     bl = rope.pieces_of(out)[0][1]
     for i in range(8):
         core.declare_input('b64dec%d[%d]' % (kk, i), bl.byte(z3.IntVal(i)))
+    e.tags.setdefault('b64dec_ropes', []).append(out)
     return out
 
 
